@@ -34,4 +34,19 @@ if [ "$prop" = C04 ]; then
   [ $r -eq 1 ] && rc=1
   exit $rc
 fi
+if [ "$prop" = C07 ]; then
+  # as ./check C07: guard-page families on the default build, then the ASan/UBSan replay tier (the pure part is skipped here)
+  rc=0; "$work/target/release/b3sim" run --prop C07 --tier "$tier" --part default "$@" || rc=$?
+  [ $rc -ne 0 ] && exit $rc
+  python3 /verif/tools/asan_tier.py "${VERIF_SEED:-1}" "$tier" "$work/target/release/b3sim" --repo "$repo"
+  exit $?
+fi
+if [ "$prop" = C18 ] && [ "$tier" = quick ]; then
+  # as ./check C18 quick: baton search, then the small Miri batch
+  rc=0; "$work/target/release/b3sim" run --prop C18 --tier quick --part sim "$@" || rc=$?
+  [ $rc -ne 0 ] && exit $rc
+  python3 /verif/tools/miri_tier.py C18 "${VERIF_SEED:-1}" --tier quick --repo "$repo"; rc=$?
+  rm -rf "/tmp/miri_tier.$(basename "$repo")"
+  exit $rc
+fi
 "$work/target/release/b3sim" run --prop "$prop" --tier "$tier" "$@"
